@@ -27,7 +27,7 @@ typedef struct item {
 	int child;
 } item_t;
 
-static int g_forms = 1;
+static int g_forms = 1, g_qosvar = 1;
 static int NT = 3, g_execs = 10, g_ops = 30, g_W = 1, g_Wreq = 1, g_susp = 1, g_inact = 0, g_pp = 1, g_nest = 1;
 static uint64_t g_seed;
 static dispatch_queue_t g_q;
@@ -438,6 +438,13 @@ int main(int argc, char **argv)
 		vrt_pause(1);
 		g_exec_inactive = g_inact && (vrt_rand() % 2 == 0);
 		dispatch_queue_attr_t attr = g_Wreq == 1 ? DISPATCH_QUEUE_SERIAL : DISPATCH_QUEUE_CONCURRENT;
+		/* queue QoS varies (inert for scheduling on this platform, but it flows through dq_priority, the max_qos bits of
+		 * dq_state and the wakeup / override decisions) */
+		if (g_qosvar) {
+			static const dispatch_qos_class_t qc[] = { QOS_CLASS_UNSPECIFIED, QOS_CLASS_UTILITY, QOS_CLASS_USER_INITIATED, QOS_CLASS_BACKGROUND, QOS_CLASS_DEFAULT };
+			unsigned qk = (unsigned)(vrt_rand() % 5);
+			if (qc[qk] != QOS_CLASS_UNSPECIFIED) attr = dispatch_queue_attr_make_with_qos_class(attr, qc[qk], -(int)(vrt_rand() % 3));
+		}
 		if (g_exec_inactive) attr = dispatch_queue_attr_make_initially_inactive(attr);
 		g_q = dispatch_queue_create("verif.lane", attr);
 		if (!g_grp) g_grp = dispatch_group_create();
